@@ -131,13 +131,13 @@ def _pad_spectrum(uh, D, N, Nf):
     return out * (Nf / N) ** D
 
 
-def probe_term(kind, D, N, seed):
+def probe_term(kind, D, N, seed, L=2.3):
     """kind in conv_c, conv_nc, conv_sc, gradnorm, poly, cubic"""
     import jax.numpy as jnp
     from exponax import nonlin_fun as nf
     from exponax import spectral as sp
     rng = np.random.default_rng(seed)
-    L = 2.3
+    L = float(L)
     b = 0.8
     dop = sp.build_derivative_operator(D, L, N)
     frac = 1 / 2 if kind == "cubic" else 2 / 3
@@ -274,6 +274,19 @@ def oracle(ctx, deep):
                 if not r["ok"]:
                     fails.append({"key": f"C03:{kind}:D{D}:Nmod3={N % 3}", "what": f"{kind} (D={D}, N={N}) differs from the alias-free projection of the documented operator on the truncated state: {r}",
                                   "probe": "term", "args": {"kind": kind, "D": D, "N": N, "seed": ctx.seed}, "observed": r})
+    # domain extents far from 1 (every documented operator scales with powers of 2π/L; nothing in it knows an absolute
+    # size): very long and very short domains, every kind
+    for D in (1, 2, 3):
+        for kind in kinds:
+            if (kind == "vort2d" and D != 2) or (kind == "proj3d" and D != 3) or (D == 3 and kind in ("conv_c", "conv_nc") and not deep):
+                continue
+            for N in (sizes[D][:2] if not deep else sizes[D][:4]):
+                for L in (1e4, 3e5, 1e-3):
+                    r = probe_term(kind, D, N, ctx.seed, L)
+                    ctx.count(("oracle_term_extent", kind, D, N, L))
+                    if not r["ok"]:
+                        fails.append({"key": f"C03:{kind}:D{D}:extent", "what": f"{kind} (D={D}, N={N}, domain extent L={L:g}) differs from the alias-free projection of the documented operator on the truncated state: {r}",
+                                      "probe": "term", "args": {"kind": kind, "D": D, "N": N, "seed": ctx.seed, "L": L}, "observed": r})
     seen, out = set(), []
     for f in fails:
         if f["key"] not in seen:
